@@ -9,6 +9,7 @@ from hio.core.tcp import serving as tserving
 
 ID = 'C18'
 EXPLANATION = ("Real http.Server (serviceReqs/serviceReps) and Responder (reset/build/write/start/service/close) over FakeNet with a scripted WSGI "
+               "(every scenario runs against a peer that takes each send whole AND against a slow reader, <= 16 bytes per send) "
                "application. On one connection 2 (quick) / 3 pipelined requests, each HTTP/1.0 or 1.1, keep-alive / close / default, "
                "solver-chosen; per response the app's status (200/404), whether it declares Content-Length (equal to the body, or "
                "SHORTER than what it then yields), the number of body pieces (0-3, incl. empty ones) and an extra header are "
@@ -25,7 +26,7 @@ OUTSIDE = ['HTTP/1.0 keep-alive requests whose response has no Content-Length ca
            'server-sent-event responses', 'more than `requests` requests per connection', 'request bodies']
 STUBS = ['FakeNet; scripted WSGI app; stderr/loggers silenced; Date header clock pinned']
 ASSUMPTIONS = ['the client sends all pipelined requests at once and reads everything']
-REQUIRED_TAGS = ['no-content-length-after-content-length', 'two-chunked-in-a-row', 'http10-request', 'connection-close', 'keep-alive-http10', 'empty-body', 'empty-piece', 'content-length-shorter-than-body', 'status-404']
+REQUIRED_TAGS = ['slow-reader-partial-sends', 'no-content-length-after-content-length', 'two-chunked-in-a-row', 'http10-request', 'connection-close', 'keep-alive-http10', 'empty-body', 'empty-piece', 'content-length-shorter-than-body', 'status-404']
 RULE = 'tags: sequences of framed/unframed-capable responses on one connection, HTTP/1.0 and close semantics, empty bodies/pieces, declared length shorter than the body'
 BODIES = [b'', b'a', b'bc', b'def']
 
@@ -90,7 +91,7 @@ def split_responses(data, closed):
     return out
 
 
-def run(sym, part, specs):
+def run(sym, part, specs, slow=False):
     net = fakenet.FakeNet()
     saved = (hserving.sys, hserving.logger, hserving.datetime)
     hserving.sys, hserving.logger, hserving.datetime = SysStub, fakenet.NullLogger(), FixedDatetime
@@ -136,8 +137,11 @@ def run(sym, part, specs):
                 # an HTTP/1.0 keep-alive exchange can only persist when the response carries a length (no chunked coding in 1.0)
                 persist.append(v == '1.1' or (v == '1.0ka' and sp['cl'] != 'nocl'))
             a.inq.append(wire_in)
+            if slow:      # a slow reader: the kernel accepts at most 16 bytes per send(), so every response needs several service passes
+                a.on_send = lambda s_, data: min(len(data), 16)
+                sym.cover('slow-reader-partial-sends')
             try:
-                for _ in range(4 * nreq + 4):
+                for _ in range((40 if slow else 4) * nreq + 4):
                     srv.service()
             except Exception as ex:     # noqa
                 from vf.engine.symx_guard import guard
@@ -217,7 +221,8 @@ def harness(sym, part):
         status = sym.choice('status%d' % r, ['200 OK', '404 Not Found']) if r == 0 else '200 OK'
         specs.append(dict(ver=ver, cl=cl, body=body, pieces=pieces, status=status))
     # every choice is realised: the server run has nothing symbolic left, so it runs with the tracer off
-    return sym.untraced(lambda: run(sym, part, specs))
+    # both transports are folded into the leaf: a peer that takes everything at once, and a slow reader (partial sends)
+    return sym.untraced(lambda: run(sym, part, specs) or run(sym, part, specs, slow=True))
 
 
 MUTANTS = [
